@@ -772,7 +772,7 @@ ra_malformed_write(RegisterTable *t, RegisterAddress addr,
             /* This can only happen with the first entry the block touches. */
             bs = 0ull;
             rs = addr - e->address;
-            rlen -= rs - 1;
+            rlen -= rs;
         } else {
             bs = e->address - addr;
             rs = 0ull;
@@ -780,7 +780,7 @@ ra_malformed_write(RegisterTable *t, RegisterAddress addr,
 
         if (end > last) {
             /* This can only happen with the last entry the block touches. */
-            rlen -= bs + size - n;
+            rlen -= end - last;
         }
 
         /* Fetch the entire memory of where the old entry is stored */
